@@ -83,7 +83,8 @@ def make_element(k, env):
     if k == 5:
         return HistToGraph()
     if k == 6:
-        return MapBins(add3)
+        # histograms are selected by the type of their bin content
+        return MapBins(add3, select_bins=int)
     if k == 7:
         return IterateBins()
     if k == 8:
@@ -111,7 +112,8 @@ def selected(k, i, fs):
         return (path, {"output": {"filetype": "pdf"}})
     if k == 7:
         inner = [(histogram([0, 1], [i]), {"c": 0}), (histogram([0, 1], [i + 1]), {"c": 1})]
-        return (histogram([0, 1, 2], inner), {"variable": {"name": "x"}})
+        # the second selected value has no context.variable of its own
+        return (histogram([0, 1, 2], inner), {"variable": {"name": "x"}} if i == 0 else {"n": i})
     if k == 8:
         return i + 1
     return ([i, i + 1], {"group": [{"a": 1}, {"a": 1}]})
@@ -119,7 +121,10 @@ def selected(k, i, fs):
 
 def foreign(k, j, serial=0):
     """A value element k must not touch (distinct for every serial)."""
-    common = [(-5 - 10 * serial, {"x": {"y": 1}}), tuple([1, 2, serial]), Obj(), -7 - 10 * serial]
+    # the first one carries, besides an unrelated item, context keys that some
+    # elements read for the values they *do* select (variable, bin)
+    common = [(-5 - 10 * serial, {"x": {"y": 1}, "variable": {"name": "y"}, "bin": {"k": 1}}),
+              tuple([1, 2, serial]), Obj(), -7 - 10 * serial]
     if j >= 2:
         return common[j - 2]
     j = j + 4
@@ -138,9 +143,12 @@ def foreign(k, j, serial=0):
     if k == 5:
         return [(histogram([0, 1], [3]), {"histogram": {"to_graph": False}}), ("hist", {})][j - 4]
     if k == 6:
-        return [("bins", {"n": 1}), ([1, 2], {})][j - 4]
+        # not a histogram; a histogram whose bin content is a list (of ints)
+        return [("bins", {"n": 1}), (histogram([0, 1, 2], [[1, 2], [3 + serial]]), {"n": 2})][j - 4]
     if k == 7:
-        return [(histogram([0, 1, 2], [1, 2]), {"k": 1}), ("h", {})][j - 4]
+        # a histogram of numbers; a histogram whose bin content is a list (of histograms)
+        return [(histogram([0, 1, 2], [1, 2]), {"k": 1}),
+                (histogram([0, 1, 2], [[histogram([0, 1], [serial])], [histogram([0, 1], [2])]]), {"k": 2})][j - 4]
     if k == 8:
         return [-10 * serial, "s%d" % serial][j - 4]
     return [(5, {"group": [{}]}), ([1, 2], {"grp": 1})][j - 4]
